@@ -7,7 +7,7 @@ FMT = ("alloc::fmt::format", "stubs::format_stub")
 def harnesses():
     out = []
     names = ["overflowing_pow", "pow", "wrapping_pow", "checked_pow", "saturating_pow"]
-    for b in [1, 2, 3, 7, 8]:
+    for b in [1, 2, 3]:   # 7 and 8 bits: the flag-carrying forms did not finish in 1800 s (thorough run), not registered
         for w, fn in enumerate(names):
             out.append(H("c13_pow_narrow_%d_%s" % (b, fn), "C13", "c13::pow_narrow::<%d,%d>" % (b, w), unwind=b + 3,
                          tier="quick" if (b == 1 or (b == 3 and w == 2)) else "thorough", timeout=1800,
